@@ -41,13 +41,44 @@ def _init(worker=False):
         pass
 
 
+class ItemTimeout(Exception):
+    pass
+
+
+def _alarm(signum, frame):
+    raise ItemTimeout()
+
+
 def _call(args):
+    """run one work item; a per-item time limit (payload["_timeout"] = (seconds, fingerprint, what) or the
+    generous default) turns a hanging item into a reported outcome instead of a hanging check"""
+    import signal
+
     mod, fn, payload = args
+    limit = None
+    if isinstance(payload, dict) and payload.get("_timeout"):
+        limit = payload["_timeout"]
+    secs = int(limit[0]) if limit else int(os.environ.get("VERIF_ITEM_TIMEOUT", "3000"))
+    try:
+        signal.signal(signal.SIGALRM, _alarm)
+        signal.alarm(secs)
+    except Exception:
+        pass
     try:
         m = importlib.import_module(mod)
         return getattr(m, fn)(payload)
+    except ItemTimeout:
+        if limit:
+            return {"n": 1, "nt": [], "samples": [], "counts": {"violations_total": 1, "timeouts": 1}, "outcomes": [],
+                    "viol": [{"fp": limit[1], "what": "%s (no result within %d s)" % (limit[2], secs), "case": {k: v for k, v in payload.items() if k != "_timeout"}}]}
+        return {"harness_error": "%s.%s(%r): work item exceeded %d s" % (mod, fn, str(payload)[:300], secs)}
     except Exception:
         return {"harness_error": "%s.%s(%r): %s" % (mod, fn, str(payload)[:300], traceback.format_exc())}
+    finally:
+        try:
+            signal.alarm(0)
+        except Exception:
+            pass
 
 
 def default_jobs():
